@@ -1,8 +1,10 @@
 package main
 
 import (
+	"bufio"
 	"fmt"
 	"math/rand"
+	"net"
 	"os"
 	"runtime"
 	"sort"
@@ -26,13 +28,27 @@ import (
 
 type scenario func(n *nodis.Nodis, r *rand.Rand, rounds int) string
 
+// progress is bumped at every marked point of the locking protocol: a run is hung when it stops
+// moving, not when it is slow
+var progress uint64
+
 func withWatchdog(d time.Duration, f func() string) string {
 	done := make(chan string, 1)
 	go func() { done <- f() }()
-	select {
-	case s := <-done:
-		return s
-	case <-time.After(d):
+	last := atomic.LoadUint64(&progress)
+	for {
+		select {
+		case s := <-done:
+			return s
+		case <-time.After(d):
+		}
+		if now := atomic.LoadUint64(&progress); now != last {
+			last = now
+			continue
+		}
+		break
+	}
+	{
 		buf := make([]byte, 1<<20)
 		n := runtime.Stack(buf, true)
 		dump := string(buf[:n])
@@ -49,7 +65,7 @@ func withWatchdog(d time.Duration, f func() string) string {
 			}
 		}
 		sort.Strings(where)
-		os.WriteFile("/tmp/verif-hang-dump.txt", buf[:n], 0o644)
+		os.WriteFile(hangDumpPath(), buf[:n], 0o644)
 		return "HANG " + strings.Join(uniq(where), ",")
 	}
 }
@@ -402,21 +418,21 @@ func stressOp(toks []string) string {
 		return "bad-op"
 	}
 	r := rand.New(rand.NewSource(seed))
-	if widen > 0 {
-		var ctr uint64
-		nodis.VerifPointHook = func(id string) {
-			c := atomic.AddUint64(&ctr, 0x9E3779B97F4A7C15)
-			if int(c>>33)%100 < widen {
-				time.Sleep(time.Duration(1+(c>>40)%40) * time.Microsecond)
-			} else {
-				runtime.Gosched()
-			}
+	var ctr uint64
+	nodis.VerifPointHook = func(id string) {
+		atomic.AddUint64(&progress, 1)
+		if widen == 0 {
+			return
 		}
-	} else {
-		nodis.VerifPointHook = nil
+		c := atomic.AddUint64(&ctr, 0x9E3779B97F4A7C15)
+		if int(c>>33)%100 < widen {
+			time.Sleep(time.Duration(1+(c>>40)%40) * time.Microsecond)
+		} else {
+			runtime.Gosched()
+		}
 	}
 	n := nodis.Open(&nodis.Options{Storage: storage.NewMemory()})
-	return withWatchdog(30*time.Second, func() (res string) {
+	return withWatchdog(10*time.Second, func() (res string) {
 		defer func() {
 			if rec := recover(); rec != nil {
 				res = fmt.Sprintf("FAIL panic: %v", rec)
@@ -424,4 +440,587 @@ func stressOp(toks []string) string {
 		}()
 		return sc(n, r, rounds)
 	})
+}
+
+// ---- protocol trace ----------------------------------------------------------------------------
+// With `ptrace` scenarios the harness records every step reported by nodis.VerifTraceHook, maps
+// transaction and record pointers to small numbers, synthesizes begin/commit/fin for the
+// one-record mini transactions of eviction, flush and SCAN, and writes the trace as `pev` lines:
+// the Lean protocol model must accept every one of them.
+
+type tracer struct {
+	mu      sync.Mutex
+	lines   []string
+	txIDs   map[any]int
+	recIDs  map[any]int
+	recName map[int]string
+	nextTx  int
+	nextRec int
+	mini    map[any]*miniTx // who (a *int64) -> state of the mini transaction
+	miniRec map[int]any     // record -> mini transaction currently holding it in w mode
+}
+
+type miniTx struct {
+	id    int
+	valid bool
+}
+
+func newTracer() *tracer {
+	return &tracer{txIDs: map[any]int{}, recIDs: map[any]int{}, recName: map[int]string{}, mini: map[any]*miniTx{}, miniRec: map[int]any{}}
+}
+
+func kx(key string) string { return fmt.Sprintf("k%x", key) }
+
+func (tr *tracer) emit(format string, a ...any) { tr.lines = append(tr.lines, "pev "+fmt.Sprintf(format, a...)) }
+
+func (tr *tracer) rec(m any, fresh bool) int {
+	if id, ok := tr.recIDs[m]; ok && !fresh {
+		return id
+	}
+	tr.nextRec++
+	tr.recIDs[m] = tr.nextRec
+	return tr.nextRec
+}
+
+func isNilRec(m any) bool { return m == nil || fmt.Sprintf("%p", m) == "0x0" }
+
+func mode(w bool) string {
+	if w {
+		return "w"
+	}
+	return "r"
+}
+
+func (tr *tracer) hook(ev string, who any, key string, m any, flag bool) {
+	atomic.AddUint64(&progress, 1)
+	tr.mu.Lock()
+	defer tr.mu.Unlock()
+	if ev == "clear" {
+		tr.emit("clear")
+		return
+	}
+	if ev == "current" {
+		// validation by the mini transaction that holds this record
+		r := tr.rec(m, false)
+		if w, ok := tr.miniRec[r]; ok {
+			mt := tr.mini[w]
+			mt.valid = flag
+			tr.emit("valid %d %s %d %s", mt.id, kx(tr.recName[r]), r, b01(flag))
+		}
+		return
+	}
+	if _, isTx := who.(*nodis.Tx); !isTx {
+		// eviction / flush / SCAN: one record at a time
+		r := tr.rec(m, false)
+		switch ev {
+		case "wait":
+			tr.nextTx++
+			mt := &miniTx{id: tr.nextTx}
+			tr.mini[who] = mt
+			tr.emit("begin %d", mt.id)
+			tr.emit("wait %d %s %d w", mt.id, kx(tr.recName[r]), r)
+		case "lock":
+			mt := tr.mini[who]
+			tr.miniRec[r] = who
+			tr.emit("lock %d %s %d w", mt.id, kx(tr.recName[r]), r)
+		case "unlink":
+			tr.emit("unlink %d %s %d", tr.mini[who].id, kx(key), r)
+		case "unlock":
+			mt := tr.mini[who]
+			if mt.valid {
+				tr.emit("commit %d", mt.id)
+			}
+			tr.emit("unlock %d %d", mt.id, r)
+			tr.emit("fin %d", mt.id)
+			delete(tr.miniRec, r)
+			delete(tr.mini, who)
+		}
+		return
+	}
+	t, ok := tr.txIDs[who]
+	if !ok {
+		tr.nextTx++
+		t = tr.nextTx
+		tr.txIDs[who] = t
+		tr.emit("begin %d", t)
+	}
+	switch ev {
+	case "look":
+		if !flag || isNilRec(m) {
+			tr.emit("look %d %s -", t, kx(key))
+		} else {
+			tr.emit("look %d %s %d", t, kx(key), tr.rec(m, false))
+		}
+	case "claim":
+		r := tr.rec(m, true)
+		tr.recName[r] = key
+		tr.emit("claim %d %s %d %s", t, kx(key), r, mode(flag))
+	case "wait", "lock":
+		tr.emit("%s %d %s %d %s", ev, t, kx(key), tr.rec(m, false), mode(flag))
+	case "valid":
+		tr.emit("valid %d %s %d %s", t, kx(key), tr.rec(m, false), b01(flag))
+	case "publish", "drop", "trylock":
+		tr.emit("%s %d %s %d", ev, t, kx(key), tr.rec(m, false))
+	case "unlink":
+		if flag {
+			tr.emit("unlink %d %s %d", t, kx(key), tr.rec(m, false))
+		} else {
+			tr.emit("unlink-unheld %d %s %d", t, kx(key), tr.rec(m, false))
+		}
+	case "unlock":
+		tr.emit("unlock %d %d", t, tr.rec(m, false))
+	case "commit":
+		tr.emit("commit %d", t)
+	case "end":
+		tr.emit("fin %d", t)
+		delete(tr.txIDs, who)
+	}
+}
+
+func b01(b bool) string {
+	if b {
+		return "1"
+	}
+	return "0"
+}
+
+// ptrace <scenario> <seed> <rounds> <widen> <outfile>: run a scenario while recording the protocol trace
+func ptraceOp(toks []string) string {
+	tr := newTracer()
+	nodis.VerifTraceHook = tr.hook
+	res := stressOp(toks[:5])
+	nodis.VerifTraceHook = nil
+	tr.mu.Lock()
+	defer tr.mu.Unlock()
+	tr.lines = append(tr.lines, "pend")
+	if err := os.WriteFile(toks[5], []byte(strings.Join(tr.lines, "\n")+"\n"), 0o644); err != nil {
+		return "FAIL " + err.Error()
+	}
+	return fmt.Sprintf("%s events=%d", res, len(tr.lines)-1)
+}
+
+// ---- more atomicity scenarios (embedded API) -------------------------------------------------
+
+// SUNIONSTORE / SINTERSTORE of two sets between which a member is being moved: the stored result is
+// computed from one snapshot of both operands
+func scStoreSnapshot(n *nodis.Nodis, r *rand.Rand, rounds int) string {
+	for round := 0; round < rounds; round++ {
+		a, b := fmt.Sprintf("ua%d", round), fmt.Sprintf("ub%d", round)
+		du, di := fmt.Sprintf("ud%d", round), fmt.Sprintf("ui%d", round)
+		n.SAdd(a, "m", "x")
+		n.SAdd(b, "x")
+		var bad atomic.Value
+		stop := make(chan struct{})
+		var wg sync.WaitGroup
+		for o := 0; o < 3; o++ {
+			wg.Add(1)
+			go func(o int) {
+				defer wg.Done()
+				for {
+					select {
+					case <-stop:
+						return
+					default:
+					}
+					if o%2 == 0 {
+						if c := n.SUnionStore(du, a, b); c != 2 {
+							bad.Store(fmt.Sprintf("SUNIONSTORE of {m,x}/{x} while m moves between them stored %d members, not 2", c))
+							return
+						}
+					} else {
+						if c := n.SInterStore(di, a, b); c != 1 {
+							bad.Store(fmt.Sprintf("SINTERSTORE of two sets between which m moves stored %d members, not 1 (m seen in both or x in neither)", c))
+							return
+						}
+					}
+				}
+			}(o)
+		}
+		for j := 0; j < 40; j++ {
+			n.SMove(a, b, "m")
+			n.SMove(b, a, "m")
+		}
+		close(stop)
+		wg.Wait()
+		if s := bad.Load(); s != nil {
+			return fmt.Sprintf("FAIL %s (round %d)", s, round)
+		}
+	}
+	return fmt.Sprintf("ok rounds=%d", rounds)
+}
+
+// ZUNIONSTORE over a sorted set that is being renamed back and forth between two names
+func scZStoreSnapshot(n *nodis.Nodis, r *rand.Rand, rounds int) string {
+	for round := 0; round < rounds; round++ {
+		a, b, d := fmt.Sprintf("za%d", round), fmt.Sprintf("zb%d", round), fmt.Sprintf("zd%d", round)
+		n.ZAdd(a, "p", 1)
+		n.ZAdd(a, "q", 2)
+		var bad atomic.Value
+		stop := make(chan struct{})
+		var wg sync.WaitGroup
+		for o := 0; o < 3; o++ {
+			wg.Add(1)
+			go func() {
+				defer wg.Done()
+				for {
+					select {
+					case <-stop:
+						return
+					default:
+					}
+					if c := n.ZUnionStore(d, []string{a, b}, nil, ""); c != 2 {
+						bad.Store(fmt.Sprintf("ZUNIONSTORE over the old and the new name of a sorted set being renamed stored %d members, not 2", c))
+						return
+					}
+				}
+			}()
+		}
+		for j := 0; j < 40; j++ {
+			n.Rename(a, b)
+			n.Rename(b, a)
+		}
+		close(stop)
+		wg.Wait()
+		if s := bad.Load(); s != nil {
+			return fmt.Sprintf("FAIL %s (round %d)", s, round)
+		}
+	}
+	return fmt.Sprintf("ok rounds=%d", rounds)
+}
+
+// MSET k1 i k2 i against MGET k1 k2 / EXISTS k1 k2 while DEL k1 k2 alternates
+func scMSetMGet(n *nodis.Nodis, r *rand.Rand, rounds int) string {
+	for round := 0; round < rounds; round++ {
+		a, b := fmt.Sprintf("ma%d", round), fmt.Sprintf("mb%d", round)
+		n.MSet(a, "0", b, "0")
+		var bad atomic.Value
+		stop := make(chan struct{})
+		var wg sync.WaitGroup
+		for o := 0; o < 3; o++ {
+			wg.Add(1)
+			go func(o int) {
+				defer wg.Done()
+				for {
+					select {
+					case <-stop:
+						return
+					default:
+					}
+					if o == 0 {
+						if c := n.Exists(a, b); c == 1 {
+							bad.Store("EXISTS k1 k2 = 1 while only MSET k1 k2 / DEL k1 k2 run")
+							return
+						}
+						continue
+					}
+					v := n.MGet(a, b)
+					if string(v[0]) != string(v[1]) || (v[0] == nil) != (v[1] == nil) {
+						bad.Store(fmt.Sprintf("MGET saw %q and %q from MSET k1 i k2 i", v[0], v[1]))
+						return
+					}
+				}
+			}(o)
+		}
+		for j := 0; j < 60; j++ {
+			s := strconv.Itoa(j)
+			n.MSet(a, s, b, s)
+			if j%3 == 0 {
+				n.Del(a, b)
+			}
+		}
+		close(stop)
+		wg.Wait()
+		if s := bad.Load(); s != nil {
+			return fmt.Sprintf("FAIL %s (round %d)", s, round)
+		}
+	}
+	return fmt.Sprintf("ok rounds=%d", rounds)
+}
+
+// ---- scenarios over TCP ------------------------------------------------------------------------
+
+type tconn struct {
+	c net.Conn
+	r *bufio.Reader
+}
+
+func serveOn(n *nodis.Nodis) (string, error) {
+	l, err := net.Listen("tcp", "127.0.0.1:0")
+	if err != nil {
+		return "", err
+	}
+	addr := l.Addr().String()
+	l.Close()
+	go func() { _ = n.Serve(addr) }()
+	for i := 0; i < 500; i++ {
+		c, err := net.Dial("tcp", addr)
+		if err == nil {
+			c.Close()
+			return addr, nil
+		}
+		time.Sleep(time.Millisecond)
+	}
+	return "", fmt.Errorf("server did not come up")
+}
+
+func dial(addr string) (*tconn, error) {
+	c, err := net.Dial("tcp", addr)
+	if err != nil {
+		return nil, err
+	}
+	return &tconn{c: c, r: bufio.NewReaderSize(c, 1<<16)}, nil
+}
+
+// do sends one command and reads one complete reply
+func (t *tconn) do(args ...string) ([]tok, error) {
+	bs := make([][]byte, len(args))
+	for i, a := range args {
+		bs[i] = []byte(a)
+	}
+	t.c.SetDeadline(time.Now().Add(10 * time.Second))
+	if _, err := t.c.Write(encodeCommand(bs)); err != nil {
+		return nil, err
+	}
+	var got []tok
+	for {
+		tk, err := readTok(t.r)
+		if err != nil {
+			return got, err
+		}
+		got = append(got, tk)
+		if treeSize(got, 0) == len(got) {
+			return got, nil
+		}
+	}
+}
+
+func tcpScenario(f func(addr string, n *nodis.Nodis, rounds int) string) scenario {
+	return func(n *nodis.Nodis, r *rand.Rand, rounds int) string {
+		addr, err := serveOn(n)
+		if err != nil {
+			return "FAIL " + err.Error()
+		}
+		return f(addr, n, rounds)
+	}
+}
+
+// N connections increment / push to a fresh key
+func scTCPIncr(addr string, n *nodis.Nodis, rounds int) string {
+	const workers, each = 6, 8
+	conns := make([]*tconn, workers)
+	for i := range conns {
+		c, err := dial(addr)
+		if err != nil {
+			return "FAIL dial: " + err.Error()
+		}
+		defer c.c.Close()
+		conns[i] = c
+	}
+	for round := 0; round < rounds; round++ {
+		key, lk := fmt.Sprintf("tc%d", round), fmt.Sprintf("tl%d", round)
+		var bad atomic.Value
+		par(workers, func(w int) {
+			for j := 0; j < each; j++ {
+				if _, err := conns[w].do("INCR", key); err != nil {
+					bad.Store("INCR got no reply: " + err.Error())
+					return
+				}
+				if _, err := conns[w].do("RPUSH", lk, fmt.Sprintf("%d-%d", w, j)); err != nil {
+					bad.Store("RPUSH got no reply: " + err.Error())
+					return
+				}
+			}
+		})
+		if s := bad.Load(); s != nil {
+			return fmt.Sprintf("FAIL %s (round %d)", s, round)
+		}
+		got, _ := conns[0].do("GET", key)
+		if len(got) != 1 || got[0].text != strconv.Itoa(workers*each) {
+			return fmt.Sprintf("FAIL lost update over TCP: %d INCRs from %d connections left %v (round %d)", workers*each, workers, got, round)
+		}
+		ll, _ := conns[0].do("LLEN", lk)
+		if len(ll) != 1 || ll[0].n != workers*each {
+			return fmt.Sprintf("FAIL lost push over TCP: %d RPUSHes left %v (round %d)", workers*each, ll, round)
+		}
+	}
+	return fmt.Sprintf("ok rounds=%d", rounds)
+}
+
+// the optimistic read-modify-write loop of C09: WATCH, GET, MULTI, SET, EXEC, retry on null
+func scTCPWatchIncr(addr string, n *nodis.Nodis, rounds int) string {
+	const workers, each = 5, 6
+	conns := make([]*tconn, workers)
+	for i := range conns {
+		c, err := dial(addr)
+		if err != nil {
+			return "FAIL dial: " + err.Error()
+		}
+		defer c.c.Close()
+		conns[i] = c
+	}
+	var retries int64
+	for round := 0; round < rounds; round++ {
+		key := fmt.Sprintf("w%d", round)
+		conns[0].do("SET", key, "0")
+		var bad atomic.Value
+		par(workers, func(w int) {
+			c := conns[w]
+			for j := 0; j < each; j++ {
+				for attempt := 0; ; attempt++ {
+					if attempt > 10000 {
+						bad.Store("optimistic loop did not finish in 10000 attempts")
+						return
+					}
+					c.do("WATCH", key)
+					g, err := c.do("GET", key)
+					if err != nil || len(g) != 1 {
+						bad.Store(fmt.Sprintf("GET: %v %v", g, err))
+						return
+					}
+					v, _ := strconv.Atoi(g[0].text)
+					c.do("MULTI")
+					c.do("SET", key, strconv.Itoa(v+1))
+					e, err := c.do("EXEC")
+					if err != nil {
+						bad.Store("EXEC: " + err.Error())
+						return
+					}
+					if len(e) >= 1 && e[0].kind == '*' {
+						break
+					}
+					atomic.AddInt64(&retries, 1)
+				}
+			}
+		})
+		if s := bad.Load(); s != nil {
+			return fmt.Sprintf("FAIL %s (round %d)", s, round)
+		}
+		got, _ := conns[0].do("GET", key)
+		if len(got) != 1 || got[0].text != strconv.Itoa(workers*each) {
+			return fmt.Sprintf("FAIL lost update in the WATCH/MULTI/EXEC loop: %d successful increments left %v (round %d)", workers*each, got, round)
+		}
+	}
+	return fmt.Sprintf("ok rounds=%d retries=%d", rounds, retries)
+}
+
+// a transaction writes the same value to two keys; another connection must never see them differ
+func scTCPExecIsolation(addr string, n *nodis.Nodis, rounds int) string {
+	w, err := dial(addr)
+	if err != nil {
+		return "FAIL dial"
+	}
+	defer w.c.Close()
+	w.do("MSET", "ex", "0", "ey", "0")
+	var bad atomic.Value
+	stop := make(chan struct{})
+	var wg sync.WaitGroup
+	for o := 0; o < 3; o++ {
+		c, err := dial(addr)
+		if err != nil {
+			return "FAIL dial"
+		}
+		defer c.c.Close()
+		wg.Add(1)
+		go func(o int) {
+			defer wg.Done()
+			for {
+				select {
+				case <-stop:
+					return
+				default:
+				}
+				var g []tok
+				if o == 0 {
+					// the observer is itself a transaction
+					c.do("MULTI")
+					c.do("GET", "ex")
+					c.do("GET", "ey")
+					g, _ = c.do("EXEC")
+				} else {
+					g, _ = c.do("MGET", "ex", "ey")
+				}
+				if len(g) == 3 && g[1].text != g[2].text {
+					bad.Store(fmt.Sprintf("a client saw ex=%s ey=%s in the middle of MULTI; SET ex i; SET ey i; EXEC", g[1].text, g[2].text))
+					return
+				}
+			}
+		}(o)
+	}
+	for j := 1; j <= rounds*20; j++ {
+		s := strconv.Itoa(j)
+		w.do("MULTI")
+		w.do("SET", "ex", s)
+		w.do("SET", "ey", s)
+		if e, err := w.do("EXEC"); err != nil || len(e) != 3 {
+			close(stop)
+			wg.Wait()
+			return fmt.Sprintf("FAIL EXEC reply %v %v", e, err)
+		}
+		if bad.Load() != nil {
+			break
+		}
+	}
+	close(stop)
+	wg.Wait()
+	if s := bad.Load(); s != nil {
+		return fmt.Sprintf("FAIL %s", s)
+	}
+	return fmt.Sprintf("ok transactions=%d", rounds*20)
+}
+
+// every connection runs a mix of multi-key commands over the same few keys: all get their replies
+func scTCPMix(addr string, n *nodis.Nodis, rounds int) string {
+	const workers = 8
+	cmds := [][]string{
+		{"RENAME", "x", "y"}, {"RENAME", "y", "x"}, {"RPOPLPUSH", "p", "q"}, {"RPOPLPUSH", "q", "p"}, {"RPOPLPUSH", "p", "p"},
+		{"SMOVE", "s1", "s2", "m"}, {"SMOVE", "s2", "s1", "m"}, {"SUNIONSTORE", "s1", "s1", "s2"}, {"SINTERSTORE", "s2", "s1", "s2"},
+		{"ZUNIONSTORE", "z1", "2", "z1", "z2"}, {"ZADD", "z2", "1", "a"}, {"DEL", "x", "y"}, {"SET", "x", "1"}, {"MSET", "x", "1", "y", "2"},
+		{"MGET", "y", "x"}, {"EXISTS", "y", "x", "p"}, {"KEYS", "*"}, {"SCAN", "0"}, {"RPUSH", "p", "a"}, {"LPOP", "q"}, {"SADD", "s1", "m"},
+		{"DBSIZE"}, {"FLUSHDB"}, {"EXPIRE", "x", "100"}, {"RENAME", "x", "x"}, {"TYPE", "p"}, {"LPUSH", "x", "wrongtype"}, {"INCR", "p"},
+	}
+	var done int64
+	var bad atomic.Value
+	par(workers, func(w int) {
+		c, err := dial(addr)
+		if err != nil {
+			bad.Store("dial")
+			return
+		}
+		defer c.c.Close()
+		rr := rand.New(rand.NewSource(int64(w)))
+		for j := 0; j < rounds*10; j++ {
+			cmd := cmds[rr.Intn(len(cmds))]
+			if _, err := c.do(cmd...); err != nil {
+				if bad.Load() == nil {
+					buf := make([]byte, 1<<20)
+					os.WriteFile(hangDumpPath(), buf[:runtime.Stack(buf, true)], 0o644)
+				}
+				bad.Store(fmt.Sprintf("%v got no reply within 10 s: %v", cmd, err))
+				return
+			}
+			atomic.AddInt64(&done, 1)
+			atomic.AddUint64(&progress, 1)
+		}
+	})
+	if s := bad.Load(); s != nil {
+		return fmt.Sprintf("FAIL %s", s)
+	}
+	return fmt.Sprintf("ok commands=%d", done)
+}
+
+func init() {
+	scenarios["store-snapshot"] = scStoreSnapshot
+	scenarios["zstore-snapshot"] = scZStoreSnapshot
+	scenarios["mset-mget"] = scMSetMGet
+	scenarios["tcp-incr"] = tcpScenario(scTCPIncr)
+	scenarios["tcp-watch-incr"] = tcpScenario(scTCPWatchIncr)
+	scenarios["tcp-exec-isolation"] = tcpScenario(scTCPExecIsolation)
+	scenarios["tcp-mix"] = tcpScenario(scTCPMix)
+}
+
+func hangDumpPath() string {
+	if p := os.Getenv("VERIF_HANG_DUMP"); p != "" {
+		return p
+	}
+	return os.TempDir() + "/verif-hang-dump.txt"
 }
